@@ -55,6 +55,11 @@ prop("C07",
  "Trusted: encoding/json, regexp, orderedmap, Tink do not panic on their inputs; pointers to parsed nodes and table nodes are non-nil by construction.",
  "panic-obligation enumeration over SSA with guard-fact discharge (dominance, small linear bound reasoning, call-site summaries)", "DESIGN.md section 3, C07")
 
+prop("C18",
+ "Exhaustive decision of the redact command's argument validation over all 2^13 presence combinations by abstract interpretation of the closure's SSA over the presence domain (empty/non-empty, zero/non-zero, unknown for results of effectful calls with both branches explored), compared with a specification predicate written from the property and the README: verdict, accepted mode, absence of side effects before every flags-only rejection, loudness of every rejection. The space is finite and enumerated completely. Level 'other' (not 'proof') because the abstraction of cobra/pflag parsing and of stdin detection is assumed, not derived.",
+ "Trusted: cobra/pflag bind flags to the variables and enforce MaximumNArgs(1); os.Stdin.Stat models piped input. Not decided: unknown flags, invalid regexp values.",
+ "abstract interpretation over a finite presence domain, exhaustive enumeration of the 8192 abstract initial states, effect log ordering", "DESIGN.md section 3, C18")
+
 ALL = ["C%02d" % i for i in range(1, 21)]
 checks = []
 for pid in ALL:
